@@ -97,7 +97,8 @@ def gen_journal(rng):
     n = rng.choice((0, 1, 2, 3, 5, 12, 40, 150))
     pattern = rng.choice(("increasing", "increasing", "ties", "same", "subsecond", "stepped_back"))
     xz = rng.random() < 0.3         # long values, stored XZ-compressed as journald does
-    gents = journalgen.gen_entries(rng, n, pattern=pattern, long_p=0.5 if xz else 0.0)
+    nomsg = rng.choice((0.0, 0.0, 0.0, 0.5, 0.9))      # entries without a MESSAGE field
+    gents = journalgen.gen_entries(rng, n, pattern=pattern, long_p=0.5 if xz else 0.0, nomsg_p=nomsg)
     for k, e in enumerate(gents):
         e.fields.append((b"_BOOT_ID", e.boot.hex().encode()))        # every real entry stores it
         if rng.random() < 0.3:
@@ -145,6 +146,9 @@ def check(stdout, rendering, ents, idxs):
     tail = parts.pop()
     if tail.strip(b"\n") != b"":
         return "bytes after the last separator: %r" % tail[:80]
+    if rendering == "cat":
+        # an entry that stores no MESSAGE has no text to show: journalctl -o cat prints nothing for it either
+        idxs = [i for i in idxs if ents[i]["message"] is not None]
     if len(parts) != len(idxs):
         return "printed %d entries, expected %d" % (len(parts), len(idxs))
     for (p, i) in zip(parts, idxs):
@@ -248,6 +252,8 @@ def run_case(seed, i, tier):
     cr.arrival_hashes.append(tr.arrival_hash())
     cr.nontrivial_keys.append(core.derive(0, "%s|%s|%s|%s|%s|%s" % (name, cont, rendering, a, b, tzo)))
     vs = mergecheck.evaluate(res, None, check_protocol=False)
+    if not vs and res.rc != 0:
+        vs.append(("exit_status_nonzero_for_a_valid_file", "exit status %s; stderr tail %r" % (res.rc, res.stderr[-200:])))
     if not vs:
         d = check(res.stdout, rendering, ents, idxs)
         if d:
